@@ -143,6 +143,7 @@ struct Args {
     bool list_jobs = false, have_replay = false;
     int job = -1;
     uint64_t skip = 0;
+    std::set<uint64_t> skip_list;   // case indices that crashed the process in an earlier attempt of this job
     double deadline = 0;  // seconds from start; 0 = none
     bool thorough() const { return tier == "thorough"; }
 };
@@ -167,6 +168,7 @@ inline void set_case(uint64_t index, const std::string& context, const std::stri
     }
 }
 inline void set_context(const std::string& c) { g_context = c; }
+inline bool skipped(uint64_t index) { return A.skip_list.count(index) != 0; }
 
 // ---------------------------------------------------------------- sanitizer monitors
 struct Mon {
@@ -248,6 +250,7 @@ int run_main(int argc, char** argv, int njobs_quick, int njobs_thorough,
         else if (a == "--out") A.out = next();
         else if (a == "--progress") A.progress = next();
         else if (a == "--skip") A.skip = strtoull(next().c_str(), 0, 10);
+        else if (a == "--skip-list") { std::string l = next(); size_t p = 0; while (p < l.size()) { A.skip_list.insert(strtoull(l.c_str() + p, 0, 10)); p = l.find(',', p); if (p == std::string::npos) break; ++p; } }
         else if (a == "--deadline") A.deadline = atof(next().c_str());
         else if (a == "--replay-case") { A.replay = next(); A.have_replay = true; }
     }
